@@ -10,6 +10,11 @@ func FindScenario(name string) *explore.Scenario {
 	all = append(all, c06Scenarios()...)
 	all = append(all, c04Scenarios()...)
 	all = append(all, c17Scenarios()...)
+	for _, g := range c07Groups() {
+		if g.Name == name {
+			return c07Scenario(g)
+		}
+	}
 	for _, sc := range all {
 		if sc.Name == name {
 			return sc
